@@ -63,13 +63,14 @@ theorem hi_pp (hL : LetterClass L) (hE : EscNotLetter L cfg) {st st1 : St} {text
     (ht : ok L st.stash.length text = true) (hf : field parent isText = [])
     (h1 : handleInlineTop cfg text st = some (data, st1))
     (h2 : ppTop st1 data atomic parent isText = some (res, parent')) :
-    (∃ e, st1.stash = st.stash ++ e) ∧ stashOk L st1.stash = true ∧ SameBut isText parent parent' ∧
+    (∃ e, st1.stash = st.stash ++ e) ∧ st1.html = st.html ∧ stashOk L st1.stash = true ∧
+      SameBut isText parent parent' ∧
       kidsOk L st1.stash.length res = true ∧ ok L st1.stash.length (field parent' isText) = true ∧
       lettersF L st1.stash (field parent' isText) ++ lettersK L st1.stash res = lettersF L st.stash text ∧
       ok L 0 (field parent' isText) = true ∧ GoodKids L res := by
   have c := handleInline_spec hL hE _ _ _ _ _ _ hs ht h1
   obtain ⟨p1, p2, p3, p4, p5, p6⟩ := processPlaceholders_spec c.sok _ _ _ _ _ _ _ c.dok hf h2
-  refine ⟨c.ext, c.sok, p1, p2, p3, ?_, p5, p6⟩
+  refine ⟨c.ext, c.html, c.sok, p1, p2, p3, ?_, p5, p6⟩
   rw [← c.cons]
   simp only [lettersF, lettersK, flat, ← letters_append, p4]
 
@@ -88,8 +89,10 @@ theorem pp_only {st : St} {text : Str} {atomic isText : Bool} {parent parent' : 
 theorem textStage_spec (hL : LetterClass L) (hE : EscNotLetter L cfg) {st st1 : St} {child c1 : Node}
     {lst : List Node} (hs : stashOk L st.stash = true) (hc : nodeOk L st.stash.length child = true)
     (h : textStage cfg child st = some (c1, lst, st1)) :
-    (∃ e, st1.stash = st.stash ++ e) ∧ stashOk L st1.stash = true ∧ kidsOk L st1.stash.length lst = true ∧
+    (∃ e, st1.stash = st.stash ++ e) ∧ st1.html = st.html ∧ stashOk L st1.stash = true ∧
+      kidsOk L st1.stash.length lst = true ∧
       ok L st1.stash.length (c1.text.getD []) = true ∧ c1.children = child.children ∧ c1.tail = child.tail ∧
+      c1.attrs = child.attrs ∧
       lettersF L st1.stash (c1.text.getD []) ++ lettersK L st1.stash lst = lettersF L st.stash (child.text.getD []) ∧
       ((child.textAtomic = true → ok L 0 (child.text.getD []) = true) → ok L 0 (c1.text.getD []) = true) ∧
       GoodKids L lst := by
@@ -105,13 +108,13 @@ theorem textStage_spec (hL : LetterClass L) (hE : EscNotLetter L cfg) {st st1 : 
         simp only [Option.some.injEq, Prod.mk.injEq] at h
         obtain ⟨e1, e2, e3⟩ := h
         subst e1; subst e2; subst e3
-        obtain ⟨q1, q2, q3, q4, q5, q6, q7, q8⟩ := hi_pp hL hE hs hc'.1 rfl h1 h2
-        exact ⟨q1, q2, q4, q5, q3.kids, q3.tail rfl, q6, fun _ => q7, q8⟩
+        obtain ⟨q1, qh, q2, q3, q4, q5, q6, q7, q8⟩ := hi_pp hL hE hs hc'.1 rfl h1 h2
+        exact ⟨q1, qh, q2, q4, q5, q3.kids, q3.tail rfl, q3.attrs, q6, fun _ => q7, q8⟩
   · rename_i hnp
     simp only [Option.some.injEq, Prod.mk.injEq] at h
     obtain ⟨e1, e2, e3⟩ := h
     subst e1; subst e2; subst e3
-    refine ⟨⟨[], by simp⟩, hs, rfl, hc'.1, rfl, rfl, by simp [lettersK_nil], ?_, fun r hr => (by cases hr)⟩
+    refine ⟨⟨[], by simp⟩, rfl, hs, rfl, hc'.1, rfl, rfl, rfl, by simp [lettersK_nil], ?_, fun r hr => (by cases hr)⟩
     intro hat
     simp only [Bool.and_eq_true, Bool.not_eq_true', not_and, Bool.not_eq_false] at hnp
     cases ht : Node.truthy child.text with
@@ -121,16 +124,17 @@ theorem textStage_spec (hL : LetterClass L) (hE : EscNotLetter L cfg) {st st1 : 
 theorem tailStage_spec (hL : LetterClass L) (hE : EscNotLetter L cfg) {st1 st2 : St} {c1 c2 : Node}
     {tr : List Node} (hs : stashOk L st1.stash = true) (hc : ok L st1.stash.length (c1.tail.getD []) = true)
     (h : tailStage cfg c1 st1 = some (c2, tr, st2)) :
-    (∃ e, st2.stash = st1.stash ++ e) ∧ stashOk L st2.stash = true ∧ kidsOk L st2.stash.length tr = true ∧
+    (∃ e, st2.stash = st1.stash ++ e) ∧ st2.html = st1.html ∧ stashOk L st2.stash = true ∧
+      kidsOk L st2.stash.length tr = true ∧
       ok L st2.stash.length (c2.tail.getD []) = true ∧ c2.children = c1.children ∧ c2.text = c1.text ∧
       lettersF L st2.stash (c2.tail.getD []) ++ lettersK L st2.stash tr = lettersF L st1.stash (c1.tail.getD []) ∧
-      ok L 0 (c2.tail.getD []) = true ∧ GoodKids L tr ∧ c2.textAtomic = c1.textAtomic := by
+      ok L 0 (c2.tail.getD []) = true ∧ GoodKids L tr ∧ c2.textAtomic = c1.textAtomic ∧ c2.attrs = c1.attrs := by
   unfold tailStage at h
   split at h
   · simp only [] at h
     -- the tail of the child after `if dumby.tail: child.tail = dumby.tail`
     have key : ∀ (sta : St) (data : Str) (tr' : List Node) (dumby : Node),
-        (∃ e, sta.stash = st1.stash ++ e) → stashOk L sta.stash = true →
+        (∃ e, sta.stash = st1.stash ++ e) → sta.html = st1.html → stashOk L sta.stash = true →
         SameBut false (mkEl "d") dumby → kidsOk L sta.stash.length tr' = true →
         ok L sta.stash.length (field dumby false) = true →
         lettersF L sta.stash (field dumby false) ++ lettersK L sta.stash tr' = lettersF L st1.stash (c1.tail.getD []) →
@@ -138,32 +142,33 @@ theorem tailStage_spec (hL : LetterClass L) (hE : EscNotLetter L cfg) {st1 st2 :
         some ((if Node.truthy dumby.tail = true then
               { c1 with tail := dumby.tail, tailAtomic := dumby.tailAtomic }
             else { c1 with tail := none, tailAtomic := false } : Node), tr', sta) = some (c2, tr, st2) →
-        ((∃ e, st2.stash = st1.stash ++ e) ∧ stashOk L st2.stash = true ∧ kidsOk L st2.stash.length tr = true ∧
+        ((∃ e, st2.stash = st1.stash ++ e) ∧ st2.html = st1.html ∧ stashOk L st2.stash = true ∧
+        kidsOk L st2.stash.length tr = true ∧
         ok L st2.stash.length (c2.tail.getD []) = true ∧ c2.children = c1.children ∧ c2.text = c1.text ∧
         lettersF L st2.stash (c2.tail.getD []) ++ lettersK L st2.stash tr = lettersF L st1.stash (c1.tail.getD []) ∧
-        ok L 0 (c2.tail.getD []) = true ∧ GoodKids L tr ∧ c2.textAtomic = c1.textAtomic) := by
-      intro sta data tr' dumby q1 q2 _ q4 q5 q6 q7 q8 hh
+        ok L 0 (c2.tail.getD []) = true ∧ GoodKids L tr ∧ c2.textAtomic = c1.textAtomic ∧ c2.attrs = c1.attrs) := by
+      intro sta data tr' dumby q1 qh q2 _ q4 q5 q6 q7 q8 hh
       simp only [Option.some.injEq, Prod.mk.injEq] at hh
       obtain ⟨e1, e2, e3⟩ := hh
       subst e2; subst e3
       have hfd : field dumby false = dumby.tail.getD [] := rfl
       rw [hfd] at q5 q6 q7
       have hc2 : c2.tail.getD [] = dumby.tail.getD [] ∧ c2.children = c1.children ∧ c2.text = c1.text ∧
-          c2.textAtomic = c1.textAtomic := by
+          c2.textAtomic = c1.textAtomic ∧ c2.attrs = c1.attrs := by
         subst e1
         split
-        · exact ⟨rfl, rfl, rfl, rfl⟩
+        · exact ⟨rfl, rfl, rfl, rfl, rfl⟩
         · rename_i ht
-          exact ⟨(getD_of_not_truthy (by simpa using ht)).symm, rfl, rfl, rfl⟩
-      exact ⟨q1, q2, q4, by rw [hc2.1]; exact q5, hc2.2.1, hc2.2.2.1, by rw [hc2.1]; exact q6,
-        by rw [hc2.1]; exact q7, q8, hc2.2.2.2⟩
+          exact ⟨(getD_of_not_truthy (by simpa using ht)).symm, rfl, rfl, rfl, rfl⟩
+      exact ⟨q1, qh, q2, q4, by rw [hc2.1]; exact q5, hc2.2.1, hc2.2.2.1, by rw [hc2.1]; exact q6,
+        by rw [hc2.1]; exact q7, q8, hc2.2.2.2.1, hc2.2.2.2.2⟩
     by_cases ha : c1.tailAtomic = true
     · simp only [ha, if_true] at h
       split at h
       · simp at h
       · rename_i tr' dumby h2
         obtain ⟨p1, p2, p3, p4, p5, p6⟩ := pp_only hs hc rfl h2
-        exact key st1 (c1.tail.getD []) tr' dumby ⟨[], by simp⟩ hs p1 p2 p3 p4 p5 p6 h
+        exact key st1 (c1.tail.getD []) tr' dumby ⟨[], by simp⟩ rfl hs p1 p2 p3 p4 p5 p6 h
     · simp only [ha] at h
       split at h
       · simp at h
@@ -172,14 +177,14 @@ theorem tailStage_spec (hL : LetterClass L) (hE : EscNotLetter L cfg) {st1 st2 :
         · simp at h
         · rename_i tr' dumby h2
           simp only [Bool.false_eq_true, if_false] at h1
-          obtain ⟨q1, q2, q3, q4, q5, q6, q7, q8⟩ := hi_pp hL hE hs hc rfl h1 h2
-          exact key sta data tr' dumby q1 q2 q3 q4 q5 q6 q7 q8 h
+          obtain ⟨q1, qh, q2, q3, q4, q5, q6, q7, q8⟩ := hi_pp hL hE hs hc rfl h1 h2
+          exact key sta data tr' dumby q1 qh q2 q3 q4 q5 q6 q7 q8 h
   · rename_i ht
     simp only [Option.some.injEq, Prod.mk.injEq] at h
     obtain ⟨e1, e2, e3⟩ := h
     subst e1; subst e2; subst e3
-    exact ⟨⟨[], by simp⟩, hs, rfl, hc, rfl, rfl, by simp [lettersK_nil],
-      by rw [getD_of_not_truthy (by simpa using ht)]; rfl, fun r hr => (by cases hr), rfl⟩
+    exact ⟨⟨[], by simp⟩, rfl, hs, rfl, hc, rfl, rfl, by simp [lettersK_nil],
+      by rw [getD_of_not_truthy (by simpa using ht)]; rfl, fun r hr => (by cases hr), rfl, rfl⟩
 
 end
 
